@@ -285,8 +285,8 @@ def features(spec):
                 f.add("acc:" + t["acc"][0])
             if s["k"] == "await":
                 f.add("await:" + (s["c"] if isinstance(s["c"], str) else "cond"))
-            if s["k"] == "while" and s["c"] == "true":
-                f.add("while:true")
+            if s["k"] == "while" and s["c"] in ("true", "false"):
+                f.add("while:" + s["c"])
     return sorted(f)
 
 
